@@ -782,10 +782,28 @@ class SBuf(object):
                 return i
         return -1
 
+    def append(self, v):
+        if self.kind != 'bytearray' or self.off != 0 or self.n != len(self.store):
+            raise Unsupported('append on a buffer that is not a whole bytearray')
+        if isinstance(v, SBool):
+            raise Unsupported('append of a symbolic boolean')
+        if isinstance(v, SInt):
+            if not bool(And(v >= 0, v <= 255)):
+                raise ValueError('byte must be in range(0, 256)')
+        elif not 0 <= v <= 255:
+            raise ValueError('byte must be in range(0, 256)')
+        self.store.append(v)
+        self.n = len(self.store)
+
+    def extend(self, o):
+        self.__iadd__(o if isinstance(o, (bytes, bytearray, SBuf)) else SBuf(list(o), 'bytes'))
+
     def __getattr__(self, name):
         # any other bytes method: only on concrete content, delegated to CPython
         if name.startswith('__'):
             raise AttributeError(name)
+        if name in ('insert', 'pop', 'remove', 'reverse', 'clear'):
+            raise Unsupported('mutating bytearray method %r' % (name,))
         if self.is_symbolic():
             raise Unsupported('bytes method %r on symbolic buffer' % (name,))
         nat = self.native()
